@@ -55,6 +55,7 @@ type VC struct {
 	events    []*Event
 	axioms    []*Clause
 	ufs       map[string]*UFDecl
+	sumFns    map[string]string // canonical summand term -> name of the uninterpreted sum function (sumover)
 	opaque    map[string]bool
 	effectFree map[string]bool
 
